@@ -438,6 +438,38 @@ class AnsiString:
                             removed_settings.append(settings_point.add[i])
                             del settings_point.add[i]
 
+        # Clean up settings which are stopped and started again at the same index for no reason. This is what is left
+        # of apply_formatting(topmost=False) or of a restart above once the setting it was done for is gone; it would
+        # otherwise take precedence over anything applied later across that index.
+        stack = []
+        for idx in sorted(self._fmts.keys()):
+            point = self._fmts[idx]
+            num = 0
+            while (
+                num < len(point.add)
+                and __class__._find_setting_reference(point.add[num], point.rem) >= 0
+            ):
+                num += 1
+            if num > 0:
+                restarts = point.add[:num]
+                # Everything which stays active here, in stack order
+                staying = [
+                    s for s in stack
+                    if __class__._find_setting_reference(s, point.rem) < 0
+                    or __class__._find_setting_reference(s, restarts) >= 0
+                ]
+                top = staying[len(staying)-num:]
+                if len(top) == num and all(a is b for a, b in zip(top, restarts)):
+                    # Already on top of the stack in this order - restart changes nothing
+                    for s in restarts:
+                        del point.rem[__class__._find_setting_reference(s, point.rem)]
+                    del point.add[:num]
+            for s in point.rem:
+                stack_idx = __class__._find_setting_reference(s, stack)
+                if stack_idx >= 0:
+                    del stack[stack_idx]
+            stack += point.add
+
         # Clean up now empty entries
         for idx in list(self._fmts.keys()):
             if not self._fmts[idx]:
